@@ -33,7 +33,7 @@ CHECKS = {
 		category='exploration',
 		technique='exhaustive triples of subsets (5/7-element universe) + Hypothesis-generated perturbed set triples checked against the metric axioms (invariant oracle)',
 		text='Range, identity of indiscernibles, d=1 iff disjoint, bit-exact symmetry, triangle inequality (slack 2^-22), width independence and strict decrease on adding a fresh k-mer are asserted for every ordered triple of subsets of a small universe in three width assignments, and for generated triples of related sets up to 2000 elements, including sets whose values alias modulo 2^16 / 2^32 under mixed widths.',
-		note='Axioms are checked on the values returned by gambit.metric.jaccarddist; exactness of each value is C02. Strict decrease asserted only for |AuB| < 2^11 where the exact decrease exceeds binary32 resolution.',
+		note='Axioms are checked on the values returned by gambit.metric.jaccarddist; exactness of each value is C02. Strict decrease asserted for |AuB| < 2^20, where the two exact ratios differ by a relative 1/(|AuB|+1) > 2^-20, i.e. by more than a binary32 spacing, so one correct rounding cannot merge them.',
 		design='DESIGN.md §4 C15',
 	),
 	'C20': dict(
